@@ -444,6 +444,14 @@ def generate(rng, tier, scale=1):
                                                else rng.randint(0, 400) / 100.0])
                     size = rng.choice([rng.randint(1, 64), rng.randint(1, top), 4 * rng.randint(1, 64)])
                     cases.append(_mk(dict_, kind, size, a, route=rng.choice(ROUTES), kw=rng.random() < 0.5))
+        # the documented closed forms (docstring math) of every strategy
+        if scale == 1:
+            for kind, names in _names():
+                for size in (2, 3, 4, 5, 8, 9, 16, 33):
+                    for a in ([None, 0.25, 2] if kind in ALPHA_KINDS else [None]):
+                        d = _mk(dict_, kind, size, a)
+                        d["entry"] = "docmath"
+                        cases.append(d)
         # the dictionary called directly: the default strategy
         for size in ([0, 1, 2, 3, 4, 7, 8, 16, 33] if scale == 1 else [rng.randint(0, top)]):
             cases.append(_mk(dict_, None, size))
@@ -459,6 +467,161 @@ def generate(rng, tier, scale=1):
             for size in (-1, -7):
                 cases.append(_mk(dict_, "hamming", size))              # xrange(negative): empty list
     return cases
+
+
+# ---------------------------------------------------------------------------------------------
+# "each sample equals the documented closed form": the `.. math::` line of a strategy's docstring
+# ---------------------------------------------------------------------------------------------
+class _LatexError(Exception):
+    pass
+
+
+_TOK = re.compile(r"\s*(\\[a-zA-Z]+|\d*\.\d+|\d+|[a-zA-Z]+|[-+^{}()\[\]|])")
+_CLOSE = {"(": ")", "[": "]", "|": "|"}
+
+
+def _latex_tokens(text):
+    pos, out = 0, []
+    text = text.strip()
+    while pos < len(text):
+        m = _TOK.match(text, pos)
+        if not m:
+            raise _LatexError("bad character at %d" % pos)
+        out.append(m.group(1))
+        pos = m.end()
+    return out
+
+
+class _LatexParser:
+    """expr := ['-'] term (('+'|'-') term)* ; term := factor+ (juxtaposition = product) ;
+    factor := atom ['^' group] ; atom := number | n | size | \\alpha | \\pi | \\frac group group |
+    \\cos factor | \\sin factor | \\left( expr \\right) | \\left[ expr \\right] | \\left| expr \\right| | group"""
+
+    def __init__(self, toks):
+        self.t, self.i = toks, 0
+
+    def peek(self):
+        return self.t[self.i] if self.i < len(self.t) else None
+
+    def take(self, want=None):
+        tok = self.peek()
+        if tok is None or (want is not None and tok != want):
+            raise _LatexError("expected %r, got %r" % (want, tok))
+        self.i += 1
+        return tok
+
+    def expr(self, stop):
+        neg = False
+        if self.peek() == "-":
+            self.take()
+            neg = True
+        v = self.term(stop)
+        if neg:
+            v = ("neg", v)
+        while self.peek() in ("+", "-"):
+            op = self.take()
+            v = (op, v, self.term(stop))
+        return v
+
+    def term(self, stop):
+        v = self.factor()
+        while self.peek() is not None and self.peek() not in ("+", "-", "}", "\\right") + tuple(stop):
+            v = ("*", v, self.factor())
+        return v
+
+    def group(self):
+        self.take("{")
+        v = self.expr(())
+        self.take("}")
+        return v
+
+    def factor(self):
+        v = self.atom()
+        if self.peek() == "^":
+            self.take()
+            v = ("pow", v, self.group())
+        return v
+
+    def atom(self):
+        tok = self.take()
+        if re.fullmatch(r"\d*\.\d+|\d+", tok):
+            return ("num", float(tok))
+        if tok in ("n", "size"):
+            return ("var", tok)
+        if tok == "\\alpha":
+            return ("var", "alpha")
+        if tok == "\\pi":
+            return ("pi",)
+        if tok == "\\frac":
+            a = self.group()
+            return ("/", a, self.group())
+        if tok in ("\\cos", "\\sin"):
+            return (tok[1:], self.factor())
+        if tok == "\\left":
+            d = self.take()
+            if d not in _CLOSE:
+                raise _LatexError("delimiter %r" % d)
+            v = self.expr(())
+            self.take("\\right")
+            self.take(_CLOSE[d])
+            return ("abs", v) if d == "|" else v
+        if tok == "{":
+            self.i -= 1
+            return self.group()
+        raise _LatexError("unexpected %r" % tok)
+
+
+def _latex_parse(text):
+    p = _LatexParser(_latex_tokens(text))
+    v = p.expr(())
+    if p.peek() is not None:
+        raise _LatexError("trailing %r" % p.peek())
+    return v
+
+
+def _latex_eval(t, env):
+    import math
+    k = t[0]
+    if k == "num":
+        return t[1]
+    if k == "var":
+        return float(env[t[1]])
+    if k == "pi":
+        return math.pi
+    if k == "neg":
+        return -_latex_eval(t[1], env)
+    if k in ("cos", "sin", "abs"):
+        return {"cos": math.cos, "sin": math.sin, "abs": abs}[k](_latex_eval(t[1], env))
+    a, b = _latex_eval(t[1], env), _latex_eval(t[2], env)
+    return {"+": a + b, "-": a - b, "*": a * b, "/": (a / b) if k == "/" else None,
+            "pow": (a ** b) if k == "pow" else None}[k]
+
+
+def _impl_docmath(c):
+    """the documented closed form of sd[name], evaluated at n = 0..size-1"""
+    from audiolazy import window, wsymm
+    import inspect
+    try:
+        f = (window if c["dict"] == "window" else wsymm)[c["name"]]
+    except KeyError:
+        return {"doc": "no-such-strategy"}
+    m = re.search(r"\.\. math:: (.*)", f.__doc__ or "")
+    if not m:
+        return {"doc": None}
+    a = _alpha_of(c)
+    if a is None:
+        d = inspect.signature(f).parameters.get("alpha")
+        a = d.default if d is not None else None
+    try:
+        tree = _latex_parse(m.group(1))
+        env = {"size": c["size"], "alpha": a}
+        vals = []
+        for n in range(c["size"]):
+            env["n"] = n
+            vals.append(_latex_eval(tree, env))
+        return {"doc": [enc(float(v)) for v in vals], "math": m.group(1)}
+    except (_LatexError, KeyError, TypeError, ZeroDivisionError, ValueError, OverflowError) as e:
+        return {"doc": "unparsed", "why": "%s: %s" % (type(e).__name__, e), "math": m.group(1)}
 
 
 def _alpha_of(c):
@@ -494,6 +657,8 @@ def _keys(sd):
 
 
 def impl(c):
+    if c["entry"] == "docmath":
+        return _impl_docmath(c)
     if c["entry"] != "call":
         return {"err": "OTHER:entry"}
     try:
@@ -555,6 +720,19 @@ def _problems(c, io, drv):
     out = []
     model, spec = drv["model"], drv.get("spec")
     vals = None
+    if c["entry"] == "docmath":
+        # the documented closed form (docstring `.. math::`) against the specified closed form; the impl's
+        # samples equal the latter (checked by the "call" cases), so a difference means the documentation
+        # states another function than the one implemented
+        if spec is None or not isinstance(io.get("doc"), list):
+            return out
+        dv, sv = [dec(x) for x in io["doc"]], [dec(x) for x in spec["ok"]]
+        bad = [i for i, (a, b) in enumerate(zip(dv, sv)) if not common.close(a, b, Fraction(1, 10 ** 9))]
+        if len(dv) != len(sv) or bad:
+            i = bad[0] if bad else 0
+            out.append(("spec", "doc-math", "documented formula `%s` gives %r at n=%d of %s.%s(%d), the strategy returns %r" % (
+                io.get("math"), float(dv[i]), i, c["dict"], c["name"], c["size"], float(sv[i]))))
+        return out
     # ---- impl <-> model (Float twin of the generated definitions) ------------------------------
     if "err" in io:
         if model.get("err") != io["err"]:
@@ -632,10 +810,15 @@ def compare(c, io, drv):
 
 
 def nontrivial(c, io):
-    return len(io.get("out", ())) >= 2
+    return len(io.get("out", ())) >= 2 or (isinstance(io.get("doc"), list) and len(io["doc"]) >= 2)
 
 
 def tally(eng, c, io):
+    eng.count("entry", c["entry"])
+    if c["entry"] == "docmath":
+        d = io.get("doc")
+        eng.count("docmath", "evaluated" if isinstance(d, list) else str(d))
+        return
     eng.count("dict", c["dict"])
     eng.count("name", c["name"] if c["name"] is not None else "<default>")
     eng.count("route", c.get("route", "item"))
@@ -656,13 +839,13 @@ def tally(eng, c, io):
 
 
 def key(c):
-    return "%s|%s|%s|%s|%s|%s" % (c["dict"], c["name"], c["size"], c.get("alpha"), c.get("alpha_int"), c.get("route"))
+    return "%s|%s|%s|%s|%s|%s|%s" % (c["entry"], c["dict"], c["name"], c["size"], c.get("alpha"), c.get("alpha_int"), c.get("route"))
 
 
 def shrink(c):
     s = c["size"]
     for t in sorted({s // 2, s - 1, s - 2, s - 4, 1, 2, 4, 8}):
-        if 0 <= t < s:
+        if (2 if c["entry"] == "docmath" else 0) <= t < s:
             yield dict(c, size=t)
     if c.get("route", "item") != "item":
         yield dict(c, route="item")
